@@ -40,6 +40,7 @@ def _fold_inv(I, fr, k):
     g = I._fin_ghost
     st = I.st
     R, Wl = g['R'], g['Wl']
+    WR = g.get('WR', Wl)           # width of the accumulator: the target's, or a wider default's
     phase = getattr(I, 'inv_phase', None)
     if phase == 'init':
         # the accumulator is THE loop-carried local, whatever it is called
@@ -55,15 +56,15 @@ def _fold_inv(I, fr, k):
             fr.env[acc] = g['init_result']
         else:
             v = z3.Int('acc!%d' % next(st.n))
-            fr.env[acc] = W.new_wire(I, Wl, v, hint='acc')
-            st.assume(z3.And(v >= 0, v < H.pow2(Wl)))
+            fr.env[acc] = W.new_wire(I, WR, v, hint='acc')
+            st.assume(z3.And(v >= 0, v < H.pow2(WR)))
             st.assume(_spec(g, kk, v, R, g['D0']))
         return []
     res = fr.env.get(acc)
     if phase == 'init':
         # the value the loop starts from is the documented default
         if isinstance(res, SObj):
-            ok = z3.And(W.den_of(res) == g['D0'], W.bw_of(res) == Wl) if res.fields.get('_den') is not None \
+            ok = z3.And(W.den_of(res) == g['D0'], W.bw_of(res) == g.get('WD0', Wl)) if res.fields.get('_den') is not None \
                 else z3.BoolVal(False)
             same = z3.BoolVal(res is g['init_result'])
             return [('the fold starts from the documented default', z3.And(ok, same))]
@@ -74,7 +75,7 @@ def _fold_inv(I, fr, k):
     # preserved: result is whatever the body built
     if not isinstance(res, SObj) or res.fields.get('_den') is None:
         return [('result is a driven wire', z3.BoolVal(False))]
-    return [('result has the width of the target', W.bw_of(res) == Wl),
+    return [('result has the width of the target (or of a wider default)', W.bw_of(res) == WR),
             ('result == value of the active branch among the first k+1, else the default',
              _spec(g, z3.simplify(k), W.den_of(res), R, g['D0']))]
 
@@ -139,7 +140,8 @@ class Finalize(Contract):
                   ('_finalize', 3): ForInv(_fold_inv), ('_finalize', 4): ForInv(_fold_inv)}
 
     def cases(self):
-        return ['wire:nodefault', 'wire:default', 'reg:nodefault', 'reg:default', 'mem']
+        return ['wire:nodefault', 'wire:default', 'reg:nodefault', 'reg:default', 'mem',
+                'wire:anydefault', 'reg:anydefault']
 
     @property
     def hooks(self):
@@ -179,6 +181,17 @@ class Finalize(Contract):
                 st.assume(W.bw_of(d) == Wl)
                 defaults = {lhs: d}
                 g['D0'], g['init_result'] = W.den_of(d), d
+            if case.endswith(':anydefault'):
+                # a default of ANY width: the target gets its low bits (`<<=` truncates), branches are unaffected
+                d = W.input_wire(I, 'dflt')
+                WD = W.bw_of(d)
+                defaults = {lhs: d}
+                g['D0'], g['init_result'] = W.den_of(d), d
+                g['WD0'] = WD
+                g['WR'] = z3.If(WD > Wl, WD, Wl)
+                g['D0post'] = z3.If(WD > Wl, H.mod(W.den_of(d), H.pow2(Wl)), W.den_of(d))
+                kq = z3.Int('k!rw')
+                st.assume(z3.ForAll([kq], z3.And(g['R'](kq) >= 0, g['R'](kq) < H.pow2(Wl))))   # rhs wires: Wl bits
 
             HOLD = z3.Function('HOLD!%d' % n, Int, z3.BoolSort())
 
@@ -230,14 +243,14 @@ class Finalize(Contract):
         if ns.kind == 'wire':
             if lhs.fields.get('_den') is None:
                 return [('the target is driven', z3.BoolVal(False))]
-            return [('target == rhs of the active branch, else the default', _spec(g, N, W.den_of(lhs), g['R'], g['D0']))]
+            return [('target == rhs of the active branch, else the default', _spec(g, N, W.den_of(lhs), g['R'], g.get('D0post', g['D0'])))]
         if ns.kind == 'reg':
             nx = lhs.fields.get('_next')
             if nx is None:
                 return [('the register next value is driven', z3.BoolVal(False))]
             from pyvc.engine import term
             return [('register.next == rhs of the active branch, else the default',
-                     _spec(g, N, term(nx), g['R'], g['D0']))]
+                     _spec(g, N, term(nx), g['R'], g.get('D0post', g['D0'])))]
         b = g.get('built')
         if b is None or len(b) != 3 or not all(isinstance(x, SObj) and x.fields.get('_den') is not None for x in b):
             return [('one write port is built from three driven wires', z3.BoolVal(False))]
